@@ -1,5 +1,5 @@
-"""C28 secure group operations match plain group operations (partial: quadratic-residue and Schnorr groups over small primes;
-real SecureFiniteGroup code at m=1 on symbolic elements, repeat with a public base and a secret exponent with m=3 parties)."""
+"""C28 secure group operations match plain group operations (thin partial claim: quadratic-residue and Schnorr groups over small primes;
+real SecureFiniteGroup operation / inversion / equality / if_else at m=1 on symbolic elements)."""
 from vf.runner import Inst
 
 PROPERTY = 'C28'
